@@ -321,6 +321,18 @@ func runPair(p Pair) result { //nolint:cyclop,gocognit
 					ic.UnbindLocalStream(c.li)
 					ic.UnbindRemoteStream(c.ri)
 				}
+				// the far end's last words about streams that are gone already: a sender report of the remote stream, a receiver report and a
+				// NACK about the local one
+				for _, c := range batch {
+					if raw, err := rtcp.Marshal([]rtcp.Packet{
+						&rtcp.SenderReport{SSRC: c.ri.SSRC, NTPTime: uint64(i+1) << 32, RTPTime: 2},
+						&rtcp.ReceiverReport{SSRC: 9, Reports: []rtcp.ReceptionReport{{SSRC: c.li.SSRC, LastSequenceNumber: 5}}},
+						&rtcp.TransportLayerNack{SenderSSRC: 9, MediaSSRC: c.li.SSRC, Nacks: []rtcp.NackPair{{PacketID: 4}}},
+					}); err == nil {
+						rtcpSrc.Push(raw)
+						_, _, _ = rtcpIn.Read(buf, nil)
+					}
+				}
 			}
 			seqOut++
 			seqIn++
